@@ -1207,6 +1207,59 @@ def namedarg_programs():
     return out
 
 
+def reentrant_programs():
+    """re-entrant statements: a statement whose body calls the enclosing function again (directly, or through a
+    second function) BEFORE it has finished, every activation with its own data (an array and bounds built from the
+    argument, a local counter, a static call counter); the outer activation's remaining iterations / clauses are
+    observed after the inner call returned.  Every loop kind, foreach in four shapes (variable / inline array
+    expression, with and without key), switch with fall-through, match, try/finally; the recursive call at the
+    first and at a middle iteration; depth 2 and 3; direct and mutual.  (State kept on an AST node - a snapshot
+    buffer, a cursor, a cached context - is shared by the activations; state kept in the frame is not.)"""
+    out = []
+    d, k, v = var("d"), var("k"), var("v")
+    items = ["arr", [["bin", "Add", ["bin", "Mul", d, lit(10)], lit(j)] for j in (1, 2, 3)]]
+    dec = ["bin", "Sub", d, lit(1)]
+    for via in ("w", "g"):
+        gfun = {"name": "g", "params": [["d", None]], "body": [tag("g", d), ["return", ["bin", "Add", ["call", "w", [d]], lit(100)]]]}
+        for pos in (0, 1):
+            def rec():
+                return [["if", ["and", ["bin", "Gt", d, lit(0)], ["bin", "Eq", k, lit(pos)]],
+                         [["echo", lit("(")], tag("r", ["call", via, [dec]]), ["echo", lit(")")]], [], []]]
+            def visit():
+                return [tag(" d", d), tag("k", k), tag("v", v)] + rec() + [tag(";d", d), tag("v", v), ["expr", ["postinc", "n"]]]
+            pro = [["static", "calls", 0], ["expr", ["postinc", "calls"]], ["expr", ["assign", "items", items]], ["expr", ["assign", "n", lit(0)]]]
+            epi = [tag(" n", var("n")), tag("c", var("calls")), ["return", ["bin", "Add", ["bin", "Mul", d, lit(1000)], var("n")]]]
+            getv = ["expr", ["assign", "v", ["idx", "items", k]]]
+            shapes = {
+                "foreach-var-kv": [["foreach", var("items"), "k", "v", visit()]],
+                "foreach-var-v": [["expr", ["assign", "k", lit(0)]], ["foreach", var("items"), None, "v", visit() + [["expr", ["postinc", "k"]]]]],
+                "foreach-expr-kv": [["foreach", items, "k", "v", visit()]],
+                "foreach-expr-v": [["expr", ["assign", "k", lit(0)]], ["foreach", items, None, "v", visit() + [["expr", ["postinc", "k"]]]]],
+                "for": [["for", [["assign", "k", lit(0)]], ["bin", "Lt", k, lit(3)], [["postinc", "k"]], [getv] + visit()]],
+                "for-le": [["for", [["assign", "k", lit(0)]], ["bin", "Le", k, lit(2)], [["assign", "k", ["bin", "Add", k, lit(1)]]], [getv] + visit()]],
+                "while": [["expr", ["assign", "k", lit(0)]], ["while", ["bin", "Lt", k, lit(3)], [getv] + visit() + [["expr", ["postinc", "k"]]]]],
+                "dowhile": [["expr", ["assign", "k", lit(0)]], ["dowhile", [getv] + visit() + [["expr", ["postinc", "k"]]], ["bin", "Lt", k, lit(3)]]],
+                "nested": [["foreach", var("items"), "k", "v", [["for", [["assign", "j", lit(0)]], ["bin", "Lt", var("j"), lit(2)], [["postinc", "j"]],
+                                                                 [tag(" j", var("j"))] + (visit() if True else [])]]]],
+                "switch": [["expr", ["assign", "k", lit(pos)]], ["expr", ["assign", "v", ["idx", "items", lit(0)]]],
+                           ["switch", d, [["case", lit(2), visit()], ["case", lit(1), [tag(" one", d)] + visit()],
+                                          ["default", [tag(" dflt", d), ["break", 1]]], ["case", lit(0), [tag(" zero", d)]]]]],
+                "match": [["expr", ["assign", "k", lit(pos)]], ["expr", ["assign", "v", ["idx", "items", lit(1)]]],
+                          tag(" m", ["match", d, [[[lit(3), lit(2)], ["bin", "Add", ["call", via, [dec]], v]], [[lit(1)], ["bin", "Mul", ["call", via, [dec]], lit(2)]]], lit(7), 9]),
+                          tag(";d", d), tag("v", v)],
+                "try": [["foreach", var("items"), "k", "v", [["try", visit(), [], [tag(" f", d), tag("k", k)]]]]],
+            }
+            for name, loop in shapes.items():
+                w = {"name": "w", "params": [["d", None]], "body": pro + loop + epi}
+                for depth in (2, 3):
+                    if depth == 3 and name in ("nested",):
+                        continue
+                    out.append({"funcs": [w, gfun] if via == "g" else [w],
+                                "main": [tag("R", ["call", "w", [lit(depth)]]), tag(" again", ["call", "w", [lit(1)]]),
+                                         ["for", [["assign", "i", lit(0)]], ["bin", "Lt", var("i"), lit(2)], [["postinc", "i"]], [tag(" flat", ["call", "w", [lit(0)]])]]]})
+    return out
+
+
 def callarg_programs():
     """argument lists longer and shorter than the parameter list: every argument expression is evaluated, left to
     right, also the surplus ones (a tracing callee shows it); a required parameter without argument is an error
@@ -1984,6 +2037,8 @@ def main(ck):
             cases.append((pr, True, None, "closure"))
         for pr in namedarg_programs():
             cases.append((pr, True, None, "namedargs"))
+        for pr in reentrant_programs():
+            cases.append((pr, True, None, "reentrant"))
         for pr in callarg_programs():
             cases.append((pr, True, None, "callargs"))
         for pr in static_branch_programs():
@@ -2114,7 +2169,7 @@ def main(ck):
     ck.cov["max_loop_nesting"] = max([nesting_of(c[0], LOOPS) for c in cases] + [0])
     ck.cov["program_size_median"] = sizes[len(sizes) // 2] if sizes else 0
     ck.cov["program_size_max"] = sizes[-1] if sizes else 0
-    ck.cov["families"] = {f: sum(1 for c in cases if c[3] == f) for f in ("nest2", "alias", "escape", "recursion", "paramalias", "match", "closure", "callargs", "namedargs", "staticbranch", "index", "fallthrough", "random", "dirty", "replay")}
+    ck.cov["families"] = {f: sum(1 for c in cases if c[3] == f) for f in ("nest2", "alias", "escape", "recursion", "paramalias", "match", "closure", "callargs", "namedargs", "reentrant", "staticbranch", "index", "fallthrough", "random", "dirty", "replay")}
     ck.cov["impl_outcomes"] = outcome_hist
     ck.samples = [srcs[len(srcs) // 2], srcs[-1]] if srcs else []
     ck.finish(level="proof", evaluations=len(cases), distinct_nontrivial=nontriv,
